@@ -1,5 +1,5 @@
 (* C02Final.v — assembly of the fragment theorem and the refutation witnesses. *)
-From PV Require Import Base Crit gen.TermsTable Terms Parse lemmas.ParseMono lemmas.ParsePrint C02Model C02Expected C02Frag lemmas.C02Lemmas.
+From PV Require Import Base Crit gen.TermsTable Terms Parse lemmas.ParseMono lemmas.ParsePrint C02Model C02Frag lemmas.C02Lemmas lemmas.C02Univ.
 From Coq Require Import Lia Arith ZArith.
 Local Open Scope list_scope.
 
@@ -22,10 +22,10 @@ Qed.
 Definition obeys_identities {V} (s_bin : binop -> V -> V -> V) : Prop :=
   forall o o2, reassoc_valid o o2 = true -> forall a b c, s_bin o a (s_bin o2 b c) = s_bin o2 (s_bin o a b) c.
 
-Theorem C02_fragment_theorem : forall c t, frag02 c t = true ->
-  exists ts e, rtoks c t = Some ts /\ to_expr c t = Some e
+Theorem C02_universal : forall c t ts e, rtoks c t = Some ts -> to_expr c t = Some e ->
+  subc c = false -> nl false t = true -> clean e = true -> lex_ok e = true ->
     (* the tokens are exactly the text pypika renders *)
-    /\ render c t = Ok (flatten ts)
+    render c t = Ok (flatten ts)
     (* every engine table reads the tokens as one and the same tree ... *)
     /\ (forall T, In T engines -> exists fuel, parse T fuel 0 ts = Some (norm e, []))
     (* ... which denotes the same function as the Python tree under every interpretation obeying the identities *)
@@ -34,14 +34,26 @@ Theorem C02_fragment_theorem : forall c t, frag02 c t = true ->
     (* and no comment introducer arises between adjacent tokens *)
     /\ adjacency_ok ts = true.
 Proof.
+  intros c t ts e R X S N C L. destruct (tokens_are_printed c t ts e R X S N) as [-> A].
+  repeat split.
+  - apply rtoks_render, R.
+  - intros T HT. rewrite <- pr_norm. apply parse_print_engine; auto. apply clean_dominated; auto.
+  - intros. apply eval_norm. assumption.
+  - apply adjacency_holds; assumption.
+Qed.
+
+Theorem C02_fragment_theorem : forall c t, frag02 c t = true ->
+  exists ts e, rtoks c t = Some ts /\ to_expr c t = Some e
+    /\ render c t = Ok (flatten ts)
+    /\ (forall T, In T engines -> exists fuel, parse T fuel 0 ts = Some (norm e, []))
+    /\ (forall V sa sn snot (sb : binop -> V -> V -> V) sp si sbt sc scs, obeys_identities sb ->
+          eval V sa sn snot sb sp si sbt sc scs (norm e) = eval V sa sn snot sb sp si sbt sc scs e)
+    /\ adjacency_ok ts = true.
+Proof.
   intros c t H. unfold frag02 in H.
   destruct (rtoks c t) as [ts|] eqn:R; [|discriminate]. destruct (to_expr c t) as [e|] eqn:X; [|discriminate].
-  apply andb_prop in H as [H Hadj]. apply andb_prop in H as [Htok Hpairs].
-  apply list_eqb_tok in Htok.
-  exists ts, e. repeat split; auto.
-  - apply rtoks_render, R.
-  - intros T HT. rewrite Htok, <- pr_norm. apply parse_print_engine; auto. apply expected_dom; auto.
-  - intros. apply eval_norm. assumption.
+  apply andb_prop in H as [H L]. apply andb_prop in H as [H C]. apply andb_prop in H as [S N]. apply negb_true_iff in S.
+  exists ts, e. split; [reflexivity|]. split; [reflexivity|]. apply (C02_universal c t ts e R X S N C L).
 Qed.
 
 (* the parser is deterministic across fuels *)
